@@ -22,6 +22,7 @@ from ...peer import Peer
 from ...requestcache import RequestCache
 from ...taskmanager import task
 from ..interfaces.dispatcher.endpoint import DispatcherEndpoint
+from ..interfaces.endpoint import EndpointListener
 from .caches import CreatedRequestCache, CreateRequestCache, PingRequestCache, RetryRequestCache, TestRequestCache
 from .crypto import CryptoEndpoint, PythonCryptoEndpoint, TunnelCrypto
 from .endpoint import TunnelEndpoint
@@ -256,6 +257,11 @@ class TunnelCommunity(Community):
             self.remove_relay(circuit_id, "unload", remove_now=True, destroy=DESTROY_REASON_SHUTDOWN)
         for circuit_id in list(self.exit_sockets.keys()):
             self.remove_exit_socket(circuit_id, "unload", remove_now=True, destroy=DESTROY_REASON_SHUTDOWN)
+
+        # The crypto endpoint registered itself as our listener: it must not forward packets to us anymore.
+        crypto_endpoint = getattr(self, "crypto_endpoint", None)
+        if isinstance(crypto_endpoint, EndpointListener):
+            self.endpoint.remove_listener(crypto_endpoint)
 
         await self.request_cache.shutdown()
 
